@@ -430,6 +430,8 @@ def collect_scripts(lens, prop, faults, extra_hints=True):
                     st = {"op": op, "n": n, "okind": "box" if "boxed" in op else "arr", "script": sc}
                     if h is not None:
                         st["hint"] = h
+                    if sc == [1] * n:
+                        st["arg"] = 1      # the source yields exactly N items and then ends (Collect!SourceIsExact)
                     out.append({"case": op, "prop": prop, "ety": "tk", "steps": [st],
                                 "d": {"op": op, "n": n, "script": sc, "hint": h}})
         if faults:
@@ -453,6 +455,8 @@ def collect_scripts_large(lens, prop):
                     st = {"op": op, "n": n, "okind": "box" if "boxed" in op else "arr", "script": sc}
                     if h is not None:
                         st["hint"] = h
+                    if sc == [1] * n:
+                        st["arg"] = 1
                     out.append({"case": op, "prop": prop, "ety": "tk", "steps": [st], "d": {"op": op, "n": n, "items": sum(1 for x in sc if x == 1), "len_script": len(sc), "hint": h}})
         for cnt in (0, n // 2, n - 1, n):
             for op in ("try_from_iter", "from_iter", "try_boxed_from_iter", "boxed_from_iter"):
@@ -476,6 +480,9 @@ def c08(tier, seed):
     c.cov["exhaustive"] = True
     c.cov["bounds"] = {"model N": "0..%d" % (4 if tier == "quick" else 6), "real-code N": sorted(set(d["n"] for d in descs)), "forms": "generate arr/box; map, fold: own/&/&mut/Box; zip: 9 stack forms + Box x Box; Clone, Default arr/box"}
     c.conform(binary, with_etys(scns, ["tk", "zst", "plain", "plz"]), "order")
+    # "for every length" includes boxed arrays far larger than the stack: fold and by-value iteration of an 8 MiB boxed
+    # array on a 256 KiB-stack thread (a stack overflow is an unexplained exit event)
+    c.conform(binary, [{"case": "big", "prop": "C08", "d": {"op": op, "shape": "1m_u64"}} for op in ("boxed_fold", "boxed_into_iter", "boxed_map")], "big-boxed-consumers", sub="big")
     c.assumptions += ["element kinds: drop-tracked (needs_drop branch of the specialised zip bodies), drop-tracked zero-sized, and plain without drop glue (the ManuallyDrop branches)"]
     return c.finish()
 
@@ -536,6 +543,8 @@ def c07(tier, seed):
     for d in dedupe(r["scenarios"]):
         for op in ("try_from_iter", "from_iter", "try_boxed_from_iter", "boxed_from_iter"):
             st = {"op": op, "n": d["n"], "okind": "box" if "boxed" in op else "arr", "script": d["script"], "hint": d["hint"]}
+            if d["script"] == [1] * d["n"]:
+                st["arg"] = 1
             scns.append({"case": op, "prop": "C07", "ety": "tk", "steps": [st], "d": dict(d, op=op)})
     # truthful hints (the script's own remaining count) and larger N: the harness's own table
     scns += [s for s in collect_scripts([0, 1, 2, 3] if tier == "quick" else [0, 1, 2, 3, 4, 5, 8, 16], "C07", True) if s["d"].get("hint") is None or s["d"]["n"] > 3]
@@ -1175,6 +1184,7 @@ def c15(tier, seed):
     c.conform(binary, scns, "conversions")
     c.conform(binary, [s for s in big_bytes_scripts([1024] if tier == "quick" else [97, 1024], "C15") if s.get("alloc")], "big-bytes")
     big = [{"case": "big", "prop": "C15", "d": {"op": op, "shape": sh}} for op in BIG_OPS for sh in BIG_SHAPES]
+    big.append({"case": "big", "prop": "C15", "d": {"op": "box_arr_list", "shape": "32x16k"}})
     c.conform(binary, big, "big-on-small-stack", sub="big")
     c.assumptions.append("O(1) rule: no allocator event between call and ret and the same block id afterwards, measured by the harness's recording global allocator")
     return c.finish()
